@@ -307,3 +307,18 @@ Proof.
   - reflexivity.
   - unfold tab_lookup_var. destruct (tab_get (lower_name n) t) as [[nv|ps b]|]; auto.
 Qed.
+
+(** * C05: calls are by value — a parameter shadows the caller's variable of the same name *)
+
+(** a store goes to the innermost scope that binds the name and leaves every enclosing scope untouched *)
+Theorem store_innermost n v t ss x :
+  tab_lookup_var n t = Ok x -> store_var n v (t :: ss) = tab_set (lower_name n) (EVar v) t :: ss.
+Proof. intro H. cbn [store_var]. rewrite H. reflexivity. Qed.
+
+(** and a lookup finds that innermost binding *)
+Theorem find_innermost n t ss x : tab_lookup_var n t = Ok x -> find_var n (t :: ss) = Ok x.
+Proof. intro H. cbn [find_var]. rewrite H. reflexivity. Qed.
+
+(** the argument values are bound under the parameter names in the fresh scope of the call *)
+Theorem call_binds_parameters n v : tab_for_call [(n, v)] [] = Ok [(lower_name n, EVar v)].
+Proof. reflexivity. Qed.
